@@ -1,7 +1,7 @@
 (** C16 - Duplicate-packets mode.  Pinned statements only. *)
 From Tftp Require Import Base.Decimal Model.Config Proofs.ConfigP.
 From Tftp Require Import Base.Prelude Model.Types Model.Consts Model.Codec Model.Window Model.Worker Model.Spec
-  Proofs.CodecP Proofs.SpecP Proofs.WindowP Proofs.SendP Proofs.RecvP Model.Net Proofs.CosimP Proofs.CosimDup.
+  Proofs.CodecP Proofs.SpecP Proofs.WindowP Proofs.SendP Proofs.RecvP Model.Net Proofs.CosimP Proofs.CosimLive Proofs.CosimDup.
 Local Open Scope N_scope.
 
 (** [send_packet]: [rep = N + 1] copies back to back; only the result of the first copy
@@ -94,7 +94,52 @@ Theorem C16_dup_mode_transfer_completes : forall sc rc F,
     r_phase (p_r p) = RDone OutOk /\ written_bytes (w_file (r_w (p_r p))) = F /\ s_phase (p_s p) = SDone OutOk.
 Proof. exact cosim_perfect_dup. Qed.
 
+(** Duplicate mode AND a disturbed network: the sender repeats every DATA [s_rep] times, the receiver
+    every ACK [r_rep] times, both channels lose, repeat and reorder at will.  Every schedule ends -
+    completed on both sides with exactly the file, or with the sender at the retry limit (files up to
+    65535 blocks) ... *)
+Definition C16_every_schedule_statement : Prop :=
+  forall (blk ws srep rrep : N) (F : bytes) (f1 f2 : list (N * fault)),
+  0 < blk -> 1 <= ws <= 65535 -> 1 <= srep -> 1 <= rrep -> nblk blk F <= 65535 ->
+  exists fuel,
+    let sc := mk_scfg blk ws 1000000000 srep false [] in
+    let rc := mk_rcfg blk ws 1000000000 rrep true [] in
+    let p := pair_run sc rc f1 f2 fuel (pair_init sc rc f1 F) in
+    (r_phase (p_r p) = RDone OutOk /\ written_bytes (w_file (r_w (p_r p))) = F /\ s_phase (p_s p) = SDone OutOk)
+    \/ s_phase (p_s p) = SDone OutTimeout.
+Theorem C16_every_schedule_ends_in_dup_mode : C16_every_schedule_statement.
+Proof. exact any_schedule_dup_statement_holds. Qed.
+
+(** ... and once nothing more is disturbed (both sides at work, one time-out still affordable) the
+    transfer completes with byte-identical content. *)
+Definition C16_quiet_after_faults_statement : Prop :=
+  forall (blk ws srep rrep : N) (F : bytes) (f1 f2 : list (N * fault)) (fuel0 : nat),
+  0 < blk -> 1 <= ws <= 65535 -> 1 <= srep -> 1 <= rrep -> nblk blk F <= 65535 ->
+  let sc := mk_scfg blk ws 1000000000 srep false [] in
+  let rc := mk_rcfg blk ws 1000000000 rrep true [] in
+  let p := pair_run sc rc f1 f2 fuel0 (pair_init sc rc f1 F) in
+  clean_from f1 (ch_n (p_sr p)) -> clean_from f2 (ch_n (p_rs p)) ->
+  s_phase (p_s p) = SInWindow -> s_retry (p_s p) + 1 < max_retries -> r_phase (p_r p) = RRun ->
+  exists fuel,
+    let p' := pair_run sc rc f1 f2 fuel p in
+    r_phase (p_r p') = RDone OutOk /\ written_bytes (w_file (r_w (p_r p'))) = F /\ s_phase (p_s p') = SDone OutOk.
+Theorem C16_quiet_after_faults_completes_in_dup_mode : C16_quiet_after_faults_statement.
+Proof. exact quiet_after_faults_dup_statement_holds. Qed.
+
+Example C16_ex_quiet_after_faults :
+  let sc := mk_scfg 4 3 1000000000 3 false [] in
+  let rc := mk_rcfg 4 3 1000000000 2 true [] in
+  let F := map N.of_nat (seq 1 30) in
+  let f1 := [(0, NfDrop); (1, NfDrop); (2, NfDrop); (4, NfHold); (7, NfDup); (9, NfDrop); (10, NfDrop); (11, NfDrop); (12, NfDrop)] in
+  let f2 := [(0, NfDrop); (1, NfDup); (3, NfHold)] in
+  let p := pair_run sc rc f1 f2 40 (pair_init sc rc f1 F) in
+  clean_from f1 (ch_n (p_sr p)) /\ clean_from f2 (ch_n (p_rs p)) /\
+  s_phase (p_s p) = SInWindow /\ s_retry (p_s p) + 1 < max_retries /\ r_phase (p_r p) = RRun.
+Proof. exact quiet_after_faults_dup_premises. Qed.
+
 Print Assumptions C16_dup_mode_transfer_completes.
+Print Assumptions C16_every_schedule_ends_in_dup_mode.
+Print Assumptions C16_quiet_after_faults_completes_in_dup_mode.
 Print Assumptions C16_duplicates_never_corrupt.
 Print Assumptions C16_first_copy_decides.
 Print Assumptions C16_data_repeated.
